@@ -28,11 +28,11 @@ DATA_LENS = {"quick": [0, 1, 16, 17, 64, 1000, 100000], "thorough": [0, 1, 15, 1
 def plan(tier, seed):
     q = tier == "quick"
     specs = []
-    for _ in range(6 if q else 14):
-        specs.append({"kind": "ref", "count": 60 if q else 400})
+    for _ in range(8 if q else 20):
+        specs.append({"kind": "ref", "count": 150 if q else 1200})
     for _ in range(2 if q else 10):
         specs.append({"kind": "bitsweep", "count": 1 if q else 2, "full": not q})
-    specs.append({"kind": "envelope", "count": 60 if q else 1500})
+    specs.append({"kind": "envelope", "count": 200 if q else 4000})
     specs.append({"kind": "gnupg", "count": 6 if q else 100, "genkeys": 1 if q else 5, "shim": True})
     return specs
 
